@@ -1143,6 +1143,97 @@ func (g *gen) generate() {
 	for i := 0; i < nh; i++ {
 		g.history(g.run.Rand(1000 + i))
 	}
+	// 7. registered parent chains: the rules on the FULL name (3..255 bytes, every label) where all parents exist
+	shapes := [][]int{{63, 63, 63}}
+	if thorough {
+		all := [][]int{{63, 63, 63}, {63, 63, 61}, {63, 63, 62}, {63, 63, 60}, {62, 62, 62}, {63, 62, 63}, {50, 50, 50, 50}, {40, 40, 40, 40, 40},
+			{63, 63, 63, 59}, {63, 63, 1, 63}, {1, 63, 63, 63}, {63, 63, 58}, {30, 63, 63, 33}, {63, 63, 63, 58}, {20, 20, 20, 20, 20, 20, 20, 20, 20}, {63, 1, 63, 1, 63}}
+		shapes = nil
+		for i, sh := range all {
+			if i%g.run.Shards == g.run.Shard {
+				shapes = append(shapes, sh)
+			}
+		}
+	}
+	for i, sh := range shapes {
+		g.chain(g.run.Rand(2000+i), sh)
+	}
+}
+
+// chain registers com and then, level by level, labels of the given lengths (every level by u1, its parent's owner), and
+// probes children of the deepest names: a well-formed label that brings the full name to 254/255 (accepted) and 256/257/…
+// bytes (refused, nothing stored), the per-label rules below a registered parent, and the other entry points on the long
+// names. Single calls cannot see these cases: without the registered chain register faults on the missing parent.
+func (g *gen) chain(rng *rand.Rand, lens []int) {
+	g.w = nil
+	g.begin("chain", nil)
+	w := g.w
+	g.op("op tx cmt tld " + H("com"))
+	parent := "com"
+	var levels []string
+	for _, n := range lens {
+		nm := randLabel(rng, n, false) + "." + parent
+		g.op(fmt.Sprintf("op tx u1 reg %s u1", H(nm)))
+		if _, ok := w.st.doms[nm]; !ok {
+			break // (refused by the contract: the monitor has spoken)
+		}
+		parent = nm
+		levels = append(levels, nm)
+	}
+	probe := func(full string) {
+		h := H(full)
+		g.op("op dry - avail " + h)
+		g.op("op dry u1 add " + h + " 16 " + H("t"))
+		g.op("op dry u1 set " + h + " 16 0 " + H("t"))
+		g.op("op dry - get " + h + " 16")
+		g.op("op dry u1 add " + H(levels[0]) + " 5 " + h)
+		g.op(fmt.Sprintf("op tx u1 reg %s u1", h))
+		if _, ok := w.st.doms[full]; ok {
+			g.op("op tx u1 add " + h + " 16 " + H("t"))
+			g.op("op dry - get " + h + " 16")
+			g.op("op dry - avail " + h)
+		}
+	}
+	// children of the deepest registered name around the 255-byte limit
+	children := func(p string) {
+		seen := map[int]bool{}
+		for _, total := range []int{253, 254, 255, 256, 257, 258, len(p) + 64, len(p) + 65, len(p) + 2} {
+			k := total - len(p) - 1
+			if k < 1 || k > 64 || seen[k] {
+				continue
+			}
+			seen[k] = true
+			probe(randLabel(rng, k, false) + "." + p)
+		}
+	}
+	if len(levels) == 0 {
+		return
+	}
+	children(parent)
+	// a registered name of exactly 255 or 254 bytes is a parent, too: its children are 257..319 bytes long
+	var long []string
+	for d := range w.st.doms {
+		if len(d) >= 254 && strings.HasSuffix(d, "."+parent) {
+			long = append(long, d)
+		}
+	}
+	sort.Strings(long)
+	for _, d := range long {
+		for _, k := range []int{1, 2, 63} {
+			probe(randLabel(rng, k, false) + "." + d)
+		}
+	}
+	// the per-label rules below a registered parent (total length well inside the limit)
+	p := levels[0]
+	for _, lab := range []string{"-a", "a-", "-", "A", "aB", "a_b", "a b", "", "a.", randLabel(rng, 64, false), randLabel(rng, 63, false), "a--b", "0", "\xc3\xa9", "a\xff"} {
+		probe(lab + "." + p)
+	}
+	// the same below the deepest name when there is room
+	if len(parent)+4 <= 255 {
+		for _, lab := range []string{"-a", "A", "a_"} {
+			probe(lab + "." + parent)
+		}
+	}
 }
 
 // history: transactions with state scans; valid and invalid arguments, several signer sets
